@@ -75,7 +75,7 @@ class C14(Check):
 
     def bounds(self, tier):
         return dict(round_trips=['ECEF -> ENU(base) -> ECEF(base)', 'ENU -> ECEF(base) -> ENU(base)'], bases=['symbolic ECEF base', 'symbolic geographic base'],
-                    base_origin=['ECEF base', 'geographic base'], closed_form='all lon, lat, h (sin / cos uninterpreted + circle identity)', track='n = 2 observations, wiring and recorded base')
+                    base_origin=['ECEF base', 'geographic base'], closed_form='all lon, lat, h (sin / cos uninterpreted + circle identity)', track='n = 2 observations, wiring and recorded base; re-projection history (project, back to ECEF, project with another base)')
 
     def jobs(self, tier, seed):
         js = []
@@ -84,6 +84,7 @@ class C14(Check):
             js.append(dict(kind='rt_enu', base=base))
             js.append(dict(kind='base0', base=base))
             js.append(dict(kind='track', base=base))
+            js.append(dict(kind='track2', base=base))
         js.append(dict(kind='wgs84'))
         return js
 
@@ -151,6 +152,35 @@ class C14(Check):
                 loc = base.toENUCoords(base)
                 ctx.reach()
                 ctx.prove(z3.And(zreal(loc.E) == 0, zreal(loc.N) == 0, zreal(loc.U) == 0), 'the local coordinates of the base itself are (0, 0, 0)')
+                return
+            if kind == 'track2':
+                # a history: project, go back to ECEF with the recorded base, project again with ANOTHER base; the base recorded at
+                # the end must be the second one, and the positions the point conversion of the intermediate ones with it
+                from tracklib.core import Track, Obs, ObsTime
+                base2 = oc.ECEFCoords(eng.real('cX', -7e6, 7e6), eng.real('cY', -7e6, 7e6), eng.real('cZ', -7e6, 7e6))
+                pts = [(eng.real('x%d' % i, -7e6, 7e6), eng.real('y%d' % i, -7e6, 7e6), eng.real('z%d' % i, -7e6, 7e6)) for i in range(1)]
+                tr = Track([Obs(oc.ECEFCoords(*p), ObsTime.readUnixTime(float(i))) for i, p in enumerate(pts)])
+                tr.toENUCoords(base)
+                tr.toECEFCoords()
+                mid = [tr.getObs(i).position for i in range(tr.size())]
+                if tr.getSRID() != 'ECEF':
+                    ctx.fail('the track is not back in ECEF coordinates')
+                    return
+                tr.toENUCoords(base2)
+                ctx.reach()
+                for i, p in enumerate(mid):
+                    w = p.toENUCoords(base2)
+                    g = tr.getObs(i).position
+                    if not ctx.prove(z3.And(zreal(g.E) == zreal(w.E), zreal(g.N) == zreal(w.N), zreal(g.U) == zreal(w.U)),
+                                     'a second whole-track projection applies the point conversion with the new base'):
+                        return
+                bg = base2.toGeoCoords()
+                rb = tr.base
+                if not isinstance(rb, oc.GeoCoords):
+                    ctx.fail('the track does not record the (geographic) base it used')
+                    return
+                ctx.prove(z3.And(zreal(rb.lon) == zreal(bg.lon), zreal(rb.lat) == zreal(bg.lat), zreal(rb.hgt) == zreal(bg.hgt)),
+                          'after a second projection the track records the base used by that projection')
                 return
             if kind == 'track':
                 from tracklib.core import Track, Obs, ObsTime
@@ -222,6 +252,23 @@ class C14(Check):
                 loc = base.toENUCoords(base)
                 if max(abs(loc.E), abs(loc.N), abs(loc.U)) > 1e-6:
                     return dict(violation='the base %s has local coordinates (%r, %r, %r)' % (base, loc.E, loc.N, loc.U))
+                return dict(violation=None, outputs={})
+            if kind == 'track2':
+                from tracklib.core import Track, Obs, ObsTime
+                base2 = oc.ECEFCoords(float(inp['cX']), float(inp['cY']), float(inp['cZ']))
+                p = (float(inp['x0']), float(inp['y0']), float(inp['z0']))
+                tr = Track([Obs(oc.ECEFCoords(*p), ObsTime.readUnixTime(0.0))])
+                tr.toENUCoords(base)
+                tr.toECEFCoords()
+                tr.toENUCoords(base2)
+                b2 = base2.toGeoCoords()
+                rb = tr.base
+                if not isinstance(rb, oc.GeoCoords) or max(abs(rb.lon - b2.lon), abs(rb.lat - b2.lat), abs(rb.hgt - b2.hgt)) > 1e-9:
+                    return dict(violation='track projected with base %s and then with base %s records the base %s' % (base, base2, rb))
+                w = rot_enu(p[0], p[1], p[2], (base2.X, base2.Y, base2.Z), b2.lon, b2.lat)
+                g = tr.getObs(0).position
+                if max(abs(g.E - w[0]), abs(g.N - w[1]), abs(g.U - w[2])) > 1e-2:
+                    return dict(violation='second projection of %r with base %s gives (%r, %r, %r), expected %r' % (p, base2, g.E, g.N, g.U, w))
                 return dict(violation=None, outputs={})
             if kind == 'track':
                 from tracklib.core import Track, Obs, ObsTime
